@@ -5,7 +5,7 @@ VERIF = os.path.dirname(os.path.dirname(os.path.abspath(__file__)))
 ALL = [f"C{i:02d}" for i in range(1, 21)]
 
 # commits in /repo whose message starts with `verif-hook:` (cfg-guarded verification hooks)
-HOOK_COMMITS = ["12ac8be", "d787177"]
+HOOK_COMMITS = ["12ac8be", "d787177", "4c25ac6"]
 
 CLAIMS = {
  "C04": dict(
@@ -662,7 +662,10 @@ def main():
                       "the only guarded code is `#[cfg(goml_verif)] impl Typer { verif_fresh, verif_tvar, verif_tvar_index, verif_unify, "
                       "verif_norm, verif_probe, verif_push_constraint, verif_constraints, verif_var_count }` at the end of "
                       "crates/compiler/src/typer/unify.rs (accessors to the private norm/unify, the constraint queue and "
-                      "the union-find table; no behaviour depends on them). Everything else links the crates in /repo by path unguarded.",
+                      "the union-find table; no behaviour depends on them), and (round 11, commit 4c25ac6 of the worker's worktree) in "
+                      "crates/compiler/src/typer/toplevel.rs a thread-local observer `verif_set_fn_observer` that `typecheck_fn` calls through three "
+                      "`#[cfg(goml_verif)]` statements (at entry, before `solve`, after `solve`; it only reads) plus `verif_ty_from_hir`, re-exported "
+                      "from typer/mod.rs. Everything else links the crates in /repo by path unguarded.",
             "baseline_off_cmd": "cd /repo && cargo nextest run --workspace --no-fail-fast --offline --test-threads 8 || cargo test --workspace --no-fail-fast --offline",
             "source_commits": HOOK_COMMITS,
             "add_only": True,
